@@ -3,7 +3,7 @@
     sumbool, sumor; no Extract Constant).  N / Z / nat stay the extracted inductive datatypes. *)
 From Coq Require Extraction.
 From Coq Require Import ExtrOcamlBasic.
-From HC Require Import Base.HBytes Model.Tlv8 Model.Storage Model.Framing Model.ConnRead Model.ConnWrite Model.Charac Model.Hap Gen.CatalogGen Model.Catalog.
+From HC Require Import Base.HBytes Model.Tlv8 Model.Storage Model.Framing Model.ConnRead Model.ConnWrite Model.Charac Model.Hap Gen.CatalogGen Model.Catalog Model.Ids.
 Extraction Language OCaml.
 Set Extraction KeepSingleton.
 Separate Extraction
@@ -17,4 +17,5 @@ Separate Extraction
   ConnWrite.wrun HBytes.chunks
   Charac.cstep Charac.well_typed Z.opp Z.div Z.modulo
   Hap.step Hap.fixed Hap.store_get Hap.empty_world Hap.get_conn
-  CatalogGen.char_ctors CatalogGen.svc_ctors Catalog.svc_type Catalog.svc_char_types.
+  CatalogGen.char_ctors CatalogGen.svc_ctors Catalog.svc_type Catalog.svc_char_types
+  Ids.add_accessory Ids.instance_ids Ids.empty_container.
